@@ -88,7 +88,7 @@ pub struct Limits {
 impl Default for Limits {
     fn default() -> Self {
         Limits {
-            max_states: 20_000_000,
+            max_states: std::env::var("XS_MAX_STATES").ok().and_then(|s| s.parse().ok()).unwrap_or(20_000_000),
             max_wall: Duration::from_secs(std::env::var("XS_MAX_WALL_S").ok().and_then(|s| s.parse().ok()).unwrap_or(1500)),
             restoration_check: true,
             obs_cap: 2_000_000,
@@ -252,10 +252,21 @@ fn replay_mode<S: System>(sys: &S) -> Option<Outcome<S>> {
     Some(out)
 }
 
+/// Set once any exploration of this process has found a violation: the verdict of the check is
+/// known, so later explorations run under tight caps (a broken implementation can make every one
+/// of dozens of explorations blow up).
+pub static VIOLATION_SEEN: std::sync::atomic::AtomicBool = std::sync::atomic::AtomicBool::new(false);
+
 pub fn explore<S: System>(sys: &S, limits: &Limits) -> Outcome<S> {
     if let Some(o) = replay_mode(sys) {
         return o;
     }
+    let mut limits = limits.clone();
+    if VIOLATION_SEEN.load(std::sync::atomic::Ordering::Relaxed) {
+        limits.max_wall = limits.max_wall.min(Duration::from_secs(20));
+        limits.max_states = limits.max_states.min(300_000);
+    }
+    let limits = &limits;
     let t0 = Instant::now();
     let mut nodes: Vec<Node<S>> = Vec::new();
     let mut map: HashMap<S::Key, u32> = HashMap::new();
@@ -544,6 +555,9 @@ pub fn explore<S: System>(sys: &S, limits: &Limits) -> Outcome<S> {
         restoration_failures: Vec::new(),
         wall_s: 0.0,
     };
+    if !found.is_empty() {
+        VIOLATION_SEEN.store(true, std::sync::atomic::Ordering::Relaxed);
+    }
     for (_sig, (v, parent, act, count)) in found {
         let mut trace = out.path_to(parent);
         trace.push(act);
